@@ -92,3 +92,61 @@ func VerifC05KeyWord() {
 	s := nd.CaseMask("case", w)
 	c05CheckKey(s)
 }
+
+// c05Rune draws an arbitrary code point as its UTF-8 encoding (surrogates,
+// which cannot occur in a Go string, excluded).
+func c05Rune(name string) string {
+	r := nd.Rune(name)
+	nd.Assume(r < 0xD800 || r > 0xDFFF)
+	var b []byte
+	switch {
+	case r < 0x80:
+		b = []byte{byte(r)}
+	case r < 0x800:
+		b = []byte{0xC0 | byte(r>>6), 0x80 | byte(r)&0x3F}
+	case r < 0x10000:
+		b = []byte{0xE0 | byte(r>>12), 0x80 | byte(r>>6)&0x3F, 0x80 | byte(r)&0x3F}
+	default:
+		b = []byte{0xF0 | byte(r>>18), 0x80 | byte(r>>12)&0x3F, 0x80 | byte(r>>6)&0x3F, 0x80 | byte(r)&0x3F}
+	}
+	return string(b)
+}
+
+// VerifC05Runes: strings with an arbitrary code point (every Unicode white
+// space, control and astral character) at the start, at the end and in the
+// middle, as key and as value.
+func VerifC05Runes() {
+	r := c05Rune("r")
+	var s string
+	switch nd.Choose("where", 0, 3) {
+	case 0:
+		s = r + "x"
+	case 1:
+		s = "x" + r
+	case 2:
+		s = "x" + r + "y"
+	case 3:
+		s = r
+	}
+	if nd.Bool("key") {
+		c05CheckKey(s)
+	} else {
+		c05CheckValue(s)
+	}
+}
+
+// VerifC05Special: longer strings made of D2's own syntax characters: every
+// string of length <= NS over an 11-character alphabet, optionally followed by
+// a plain letter (covers `...@x`, `@x`, `${x}`, `-`, `|x`, `a: b`, ...).
+func VerifC05Special() {
+	n := nd.Choose("len", 1, nd.Param("NS", 4))
+	s := nd.From("s", n, ".@$-|:;#*{x")
+	if nd.Bool("tail") {
+		s += "x"
+	}
+	if nd.Bool("key") {
+		c05CheckKey(s)
+	} else {
+		c05CheckValue(s)
+	}
+}
